@@ -21,7 +21,12 @@ import (
 
 func genLang(c *hx.Ctx, stream, profile string) {
 	for i := 0; i < c.N; i++ {
-		p := lang.Generate(c.Rng.Fork(), profile)
+		var p *lang.Prog
+		if profile == "values" && i%2 == 1 {
+			p = lang.GenerateL0(c.Rng.Fork()) // layer L0: also compiled and run by the model compiler + VM
+		} else {
+			p = lang.Generate(c.Rng.Fork(), profile)
+		}
 		ids := make([]string, len(p.Once))
 		for j, id := range p.Once {
 			ids[j] = strconv.Itoa(id)
